@@ -43,6 +43,83 @@ impl Payload for u32 {
     }
 }
 
+impl Payload for String {
+    fn make(tok: u32) -> Self {
+        // some payloads look like other JSON values
+        match tok % 5 {
+            0 => format!("{}", tok),
+            1 => format!("null#{}", tok),
+            _ => format!("p{}", tok),
+        }
+    }
+    fn tok(&self) -> u32 {
+        self.trim_start_matches(|c: char| !c.is_ascii_digit()).parse().unwrap_or(u32::MAX)
+    }
+    #[cfg(feature = "it_deser")]
+    fn round_trip(a: &Arena<Self>) -> Option<(Arena<Self>, bool)> {
+        let s = serde_json::to_string(a).ok()?;
+        let c: Arena<String> = serde_json::from_str(&s).ok()?;
+        let eq = c == *a && serde_json::to_string(&c).ok()? == s;
+        Some((c, eq))
+    }
+}
+
+/// a payload that exercises more of serde's data model: options, enums with and without data, nesting
+#[derive(Debug, Clone, PartialEq, Serialize, Deserialize)]
+pub enum Kind {
+    Unit,
+    Num(u8),
+    Pair { a: i64, b: Option<bool> },
+}
+#[derive(Debug, Clone, PartialEq, Serialize, Deserialize)]
+pub struct Rich {
+    pub tok: u32,
+    pub tag: Option<String>,
+    pub kind: Kind,
+    pub list: Vec<Option<u32>>,
+}
+impl Payload for Rich {
+    fn make(tok: u32) -> Self {
+        Rich {
+            tok,
+            tag: if tok % 3 == 0 { None } else { Some(format!("t{}", tok)) },
+            kind: match tok % 4 {
+                0 => Kind::Unit,
+                1 => Kind::Num(tok as u8),
+                _ => Kind::Pair { a: -(tok as i64), b: if tok % 2 == 0 { None } else { Some(true) } },
+            },
+            list: (0..(tok % 3)).map(|i| if i == 1 { None } else { Some(tok + i) }).collect(),
+        }
+    }
+    fn tok(&self) -> u32 {
+        self.tok
+    }
+    #[cfg(feature = "it_deser")]
+    fn round_trip(a: &Arena<Self>) -> Option<(Arena<Self>, bool)> {
+        let s = serde_json::to_string(a).ok()?;
+        let c: Arena<Rich> = serde_json::from_str(&s).ok()?;
+        let eq = c == *a && serde_json::to_string(&c).ok()? == s;
+        Some((c, eq))
+    }
+}
+
+/// Option payloads: `None` serialises like an absent value
+impl Payload for Option<u32> {
+    fn make(tok: u32) -> Self {
+        if tok % 4 == 3 { None } else { Some(tok) }
+    }
+    fn tok(&self) -> u32 {
+        self.unwrap_or(0)
+    }
+    #[cfg(feature = "it_deser")]
+    fn round_trip(a: &Arena<Self>) -> Option<(Arena<Self>, bool)> {
+        let s = serde_json::to_string(a).ok()?;
+        let c: Arena<Option<u32>> = serde_json::from_str(&s).ok()?;
+        let eq = c == *a && serde_json::to_string(&c).ok()? == s;
+        Some((c, eq))
+    }
+}
+
 thread_local! {
     pub static DROP_LOG: RefCell<Vec<u64>> = const { RefCell::new(Vec::new()) };
     static SERIAL: RefCell<u64> = const { RefCell::new(0) };
